@@ -250,7 +250,9 @@ class C14(SchemaCheck):
                    'a nested group against none, and - in about half of the schemas - two definitions engineered to collide under the compiler\'s structural hash: rothash is linear '
                    'over GF(2), so for member lists [..a, z] and [..a^d, z\'] the generator solves z\' = z ^ L(hash-prefix difference); the equality of the two hashes is recomputed in '
                    'Python and asserted, so the colliding class cannot silently become empty. A third message may share one of the two definitions',
-                   'pure reorderings of the same member fields are not claimed and not generated as the distinguishing difference',
+                   'further families: identical outer groups whose nested group differs (colliding members, a mandatory flag, member order); definitions over the same member '
+                   'fields that differ only in a mandatory flag or in member order - two of them, or three to four pairwise different ones; a colliding pair plus one to three '
+                   'definitions constructed to hash 1..3 above the shared hash (the slots the collision probe steps over); a further message may reuse any of the definitions',
                    'oracle and pipeline as C13: the metadata of every message must be that message\'s own definition, and messages of each definition must round-trip']
     rule = ('Hypothesis draws a C14-family schema (see assumptions), which goes through f8c, the C++ compiler and dlopen like a C13 schema. Oracle: for every message the group '
             'element definition read back from the generated tables equals its own definition in the schema (member fields, order, mandatory flags, nested groups), and generated '
